@@ -71,12 +71,12 @@ static void conf_from_cmd(Cmd *c, CC_HashTableConf *conf) {
 
 /* ------------------------------------------------------------------ session */
 static CC_HashSet *hs;
-static CC_HashSetIter it; static int it_valid, it_can_remove;
+static CC_HashSetIter it; static int it_valid;
 static uint64_t universe[4096]; static size_t n_univ;
 static unsigned long long ord_log[4096]; static size_t ord_n; static int ord_on;
 static int load_bound_broken; /* C20: size > threshold right after a successful insertion */
 static char extra_phys[64]; /* out-value of remove/iter_remove: the table's dummy value, judged at L3 only */
-static void shim_reset(void) { hs = NULL; it_valid = it_can_remove = 0; n_univ = 0; }
+static void shim_reset(void) { hs = NULL; it_valid = 0; n_univ = 0; }
 static void univ_add(uint64_t k) {
     for (size_t i = 0; i < n_univ; i++) if (universe[i] == k) return;
     if (n_univ < 4096) universe[n_univ++] = k;
@@ -126,7 +126,7 @@ static void phys(void) {
         o(o_first ? "%zu:%llu:%llu:%zu" : ",%zu:%llu:%llu:%zu", i, keyval(e->key), VAL(e->value), e->hash); o_first = 0; total++;
     }
     o_end();
-    if (it_valid) { char b1[32], b2[32]; o(" it=%zu/%s/%s/%d", it.iter.bucket_index, ptr_name(it.iter.prev_entry, b1), ptr_name(it.iter.next_entry, b2), it_can_remove); }
+    if (it_valid) { char b1[32], b2[32]; o(" it=%zu/%s/%s", it.iter.bucket_index, ptr_name(it.iter.prev_entry, b1), ptr_name(it.iter.next_entry, b2)); }
     if (ord_on) { o(" "); O_LIST("ord"); for (size_t i = 0; i < ord_n; i++) o_item(ord_log[i]); o_end(); }
     o("%s", extra_phys);
     /* L2 walkers */
@@ -151,7 +151,7 @@ static void do_op(Cmd *c) {
         if (st != CC_OK) hs = NULL;
         o_stat(st); o(" ");
     } else if (is_op(c, "new_default")) {
-        hs = NULL; it_valid = 0; default_mode = 1; key_kind = K_STR;
+        hs = NULL; it_valid = 0; key_kind = K_STR;
         enum cc_stat st = cc_hashset_new(&hs); if (st != CC_OK) hs = NULL; o_stat(st); o(" ");
     } else if (!hs) { o("st=- nosession ");
     } else if (is_op(c, "add")) {
@@ -169,16 +169,16 @@ static void do_op(Cmd *c) {
     } else if (is_op(c, "foreach")) {
         ord_on = 1; cc_hashset_foreach(hs, cb_key); o("st=- "); o_sorted("cb", ord_log, ord_n); o(" ");
     } else if (is_op(c, "it_new")) {
-        cc_hashset_iter_init(&it, hs); it_valid = 1; it_can_remove = 0; o("st=- ");
+        cc_hashset_iter_init(&it, hs); it_valid = 1; o("st=- ");
     } else if (is_op(c, "it_next")) {
         if (!it_valid) o("st=- noiter ");
         else { void *e = PTR(777777); int noout = (int)kv_u64(c, "noout", 0);
             enum cc_stat st = cc_hashset_iter_next(&it, noout ? NULL : &e); o_stat(st);
-            if (st == CC_OK) { if (!noout) o(" k=%llu", keyval(e)); it_can_remove = 1; } o(" "); }
+            if (st == CC_OK) { if (!noout) o(" k=%llu", keyval(e)); } o(" "); }
     } else if (is_op(c, "it_remove")) {
-        if (!it_valid || !it_can_remove) o("st=- noiter ");
+        if (!it_valid) o("st=- noiter ");
         else { void *out = PTR(777777); int noout = (int)kv_u64(c, "noout", 0);
-            enum cc_stat st = cc_hashset_iter_remove(&it, noout ? NULL : &out); it_can_remove = 0;
+            enum cc_stat st = cc_hashset_iter_remove(&it, noout ? NULL : &out);
             o_stat(st); if (st == CC_OK && !noout) snprintf(extra_phys, sizeof extra_phys, " rmout=%llu", VAL(out)); o(" "); }
     } else if (is_op(c, "destroy")) {
         cc_hashset_destroy(hs); hs = NULL; it_valid = 0; o("st=- ");
